@@ -60,6 +60,15 @@ def base_terms(kind, n, pool, r):
             out.append(v ** 2)
         elif kind == "param":
             out.append(pool.params[i % len(pool.params)] * v + (i % 3))
+        elif kind == "clones":
+            # every mention is a NEW Variable object with the same name (a helper `def var(i): return Variable(f"v{i}")`)
+            from optyx import Variable as _V
+            out.append(_V(v.name) ** 2 - 2 * _V(v.name))
+        elif kind == "distinct":
+            # every term has its own variable, written with the variable on the LEFT: the first one sits at the very bottom
+            # of the left spine and is mentioned nowhere else
+            from optyx import Variable as _V
+            out.append(_V(f"u{i}") * 3.0)
         elif kind == "divc":
             out.append(r.choice([1, 3, 0.5]) * v / (gen.Constant(4.0) / 2))          # denominator is a constant EXPRESSION, not a literal
         elif kind == "negpow":
@@ -102,7 +111,7 @@ def run(rep: vk.Report):
             n = rng.choice(shallow_sizes)
             plan.append((kind, op, n, rng.choice(["left", "balanced"])))
     # term kinds that exercise each rule of the degree analysis and the call-time reading of parameters, right at the switch depth
-    for kind in ["param", "divc", "negpow", "fracpow", "pow01", "cdiv", "cexpr"]:
+    for kind in ["param", "divc", "negpow", "fracpow", "pow01", "cdiv", "cexpr", "clones", "distinct"]:
         for op, n in ([("+", 401), ("-", 400)] if quick else [("+", 399), ("+", 400), ("+", 401), ("-", 400), ("-", 900), ("*", 401)]):
             plan.append((kind, op, n, "left" if op != "+" or quick else rng.choice(["left", "balanced"])))
     for kind in (["lin", "vec", "fn:atan", "fn:log2"] if quick else ["lin", "var", "sq", "vec", "fn:sin", "fn:atan", "fn:log2"]):
@@ -131,7 +140,10 @@ def run(rep: vk.Report):
         e = shapes.get(assoc, shapes["left"])
         assoc = assoc if assoc in shapes else "left"
         deep = n > 900
-        V = sorted(set().union(*[t.get_variables() for t in terms[:50]]), key=_variable_order_key)
+        V = sorted({v.name: v for t in (terms if kind == "distinct" else terms[:50]) for v in t.get_variables()}.values(), key=_variable_order_key)
+        if kind == "clones":
+            from optyx import Variable as _V
+            V = [_V(v.name) for v in V]          # differentiate with respect to equal-named but distinct objects
         names = [v.name for v in V]
         pt = {nm: r.choice([0.5, 0.75, 0.25, 0.625]) for nm in names}
         xarr = np.array([pt[nm] for nm in names], dtype=float)
@@ -245,6 +257,46 @@ def run(rep: vk.Report):
             if o.get("grad") is not None:
                 nums.append(f"({a_id}%nat, {ser.BOPS[op]}, {tts}, (Some {ser.s(names[0])}), {common.pts_term(pt)}, {common.pts_term(ppts0)}, [{ser.q(o['grad'])}])")
                 nmeta.append({"what": "gradient", "base": kind, "op": op, "n": n, "association": assoc, "value": o["grad"]})
+    # ---- vectorised writing vs the loop-built formula (the third "shape" of the property): strided handles of one vector, whose
+    # names coincide, accumulated in both operand orders; variables, value and LP optimum must equal the loop-built model's
+    from optyx import VectorVariable, Problem
+    vec_cmp = 0
+    for order in [(3, 2, 1), (1, 2, 3), (2, 1), (1, 2), (2, 3), (3, 1)]:
+        for nvec in (6, 12):
+            xv = VectorVariable("x", nvec, lb=0.0, ub=3.0)
+            cw = {1: 1.0, 2: 2.0, 3: -1.5}
+            vect = None
+            loop = None
+            for st in order:
+                t = cw[st] * xv[0:nvec:st].sum()
+                vect = t if vect is None else vect + t
+                for j in range(0, nvec, st):
+                    u = cw[st] * xv[j]
+                    loop = u if loop is None else loop + u
+            last = order[-1]
+            con_v = xv[0:nvec:last].sum() <= 4
+            con_l = None
+            for j in range(0, nvec, last):
+                con_l = xv[j] if con_l is None else con_l + xv[j]
+            con_l = con_l <= 4
+            Pv, Pl = Problem().maximize(vect).subject_to(con_v), Problem().maximize(loop).subject_to(con_l)
+            vec_cmp += 1
+            nv_, nl_ = [v.name for v in Pv.variables], [v.name for v in Pl.variables]
+            ptv = {f"x[{j}]": 0.25 * (j + 1) for j in range(nvec)}
+            with warnings.catch_warnings():
+                warnings.simplefilter("ignore")
+                try:
+                    sv, sl = Pv.solve(), Pl.solve()
+                    solved = (sv.status.value, None if sv.objective_value is None else round(sv.objective_value, 7)), \
+                             (sl.status.value, None if sl.objective_value is None else round(sl.objective_value, 7))
+                except Exception as ex:
+                    solved = (("raised", repr(ex)[:120]), ("-", None))
+            vv, vl = common.fval(vect.evaluate(ptv)), common.fval(loop.evaluate(ptv))
+            if nv_ != nl_ or solved[0] != solved[1] or vv is None or vl is None or abs(vv - vl) > 1e-9:
+                shape_diffs += 1
+                rep.violation({"kind": "shape", "obligation": "the vectorised writing of a formula gives the variables, value and optimum of the loop-built one",
+                               "witness": {"n": nvec, "stride_order": list(order), "variables_vectorised": nv_, "variables_loop": nl_,
+                                           "solve_vectorised": solved[0], "solve_loop": solved[1], "value_vectorised": vv, "value_loop": vl}}, concrete=True)
     sfails = structs.run(shard=4)
     nfails, nund = common.run_classify(IMPORTS, DEFS, NUM_TYPE, nums, NUM_CHECKER, shard=4) if nums else ([], [])
     for i in sfails:
@@ -260,6 +312,7 @@ def run(rep: vk.Report):
                    "x ops + - * / x sizes {399,400,401,900} (and 5000/20000 for gradient, degree, variables) x left-deep / balanced; "
                    "distinct = distinct (base, op, n, association); non-trivial = all (every chain has hundreds of nodes)")
     cov["samples"] = [dict(m) for m in structs.meta[:4]]
+    cov["vectorised_vs_loop_comparisons"] = vec_cmp
     cov["plan_size"] = len(plan)
     cov["numeric_checks"] = len(nums)
     cov["numeric_undecided"] = len(nund)
